@@ -101,6 +101,7 @@ type Options struct {
 	Concrete     map[string]string // replay: variable values; when non-nil the run is fully concrete
 	KeepGoing    bool              // continue exploring after a violation
 	MaxViolations int              // with KeepGoing: stop exploring a harness after this many violations (0 = never)
+	Deadline     time.Time         // stop exploring when this instant has passed (zero = never)
 	DumpDir      string
 	Fallback     []string        // solvers tried when the primary answers unknown
 	Tier         int             // 0 quick, 1 thorough (read by harnesses via verifTier)
@@ -184,6 +185,7 @@ type CoverInfo struct {
 	Paths   int               `json:"paths"`
 	Witness map[string]string `json:"witness,omitempty"`
 	Status  string            `json:"status"` // "sat" witnessed, "unknown"
+	final   bool              // the witness satisfies a whole completed path
 }
 
 type HarnessResult struct {
@@ -204,6 +206,7 @@ type HarnessResult struct {
 	SamplePaths     []string                  `json:"sample_paths"`
 	StoppedEarly  bool `json:"stopped_early,omitempty"`
 	PathBudgetHit   bool                      `json:"path_budget_hit"`
+	TimeBudgetHit   bool                      `json:"time_budget_hit,omitempty"`
 	KnownHits       []KnownHit                `json:"known_hits"`
 	Decisions       int                       `json:"decisions"`
 	InfeasibleSites map[string]int            `json:"infeasible_sites,omitempty"`
@@ -320,10 +323,19 @@ func (p *Program) RunHarness(fn *ssa.Function, opts Options) *HarnessResult {
 			for len(queue) == 0 && active > 0 {
 				cond.Wait()
 			}
+			if len(queue) > 0 && !opts.Deadline.IsZero() && time.Now().After(opts.Deadline) {
+				// the run's time budget is used up: stop exploring (reported as inconclusive)
+				queue = nil
+				hr.TimeBudgetHit = true
+			}
 			if len(queue) == 0 && active == 0 {
 				qmu.Unlock()
 				cond.Broadcast()
 				return
+			}
+			if len(queue) == 0 {
+				qmu.Unlock()
+				continue
 			}
 			prefix := queue[len(queue)-1]
 			queue = queue[:len(queue)-1]
@@ -400,6 +412,9 @@ func (p *Program) RunHarness(fn *ssa.Function, opts Options) *HarnessResult {
 	wg.Wait()
 	if hr.PathBudgetHit {
 		inconc[fmt.Sprintf("path budget %d exhausted", opts.MaxPaths)] = true
+	}
+	if hr.TimeBudgetHit {
+		inconc["time budget of the run exhausted before the exploration finished"] = true
 	}
 	for f := range funcs {
 		hr.Funcs = append(hr.Funcs, f)
@@ -484,6 +499,36 @@ func (r *Run) runPath(w *worker, prefix []bool) (res *PathResult, newPrefixes []
 	}()
 	call(i, nil, token.NoPos, r.fn, nil)
 	res.Outcome = "ok"
+	// a cover label's witness should satisfy the WHOLE path (variables drawn after the label included):
+	// replace witnesses taken at cover time by the model at the end of a completed path
+	if r.opts.Concrete == nil && len(res.Covers) > 0 {
+		need := false
+		r.mu.Lock()
+		for _, l := range res.Covers {
+			if ci := r.covers[l]; ci != nil && !ci.final {
+				need = true
+			}
+		}
+		r.mu.Unlock()
+		if need {
+			m := i.model
+			if m == nil {
+				if q := i.solve(i.pc, r.opts.FeasMs); q.Status == "sat" {
+					m = q.Model
+				}
+			}
+			if m != nil {
+				wit := i.fullModel(m)
+				r.mu.Lock()
+				for _, l := range res.Covers {
+					if ci := r.covers[l]; ci != nil && !ci.final {
+						ci.Status, ci.Witness, ci.final = "sat", wit, true
+					}
+				}
+				r.mu.Unlock()
+			}
+		}
+	}
 	return
 }
 
